@@ -191,7 +191,8 @@ def negN (need : Nat) (ds : List Nat) (sciExp : Int) (o : WOpts) (b : WBuf) : Re
     else do
       let b ← b.set 1 o.dp
       let b ← b.set 2 48
-      padZeros b 3 count exact
+      -- `digit_count += 1`: the `0` after the point is a written digit (/repo fix of the carry padding)
+      padZeros b 3 (count + 1) (minExactDigits (count + 1) o)
   else if tr.2 then do
     let b ← b.set 1 o.dp
     let x ← b.get cursor
@@ -345,7 +346,7 @@ def sizeExp (feats : Features) (fmt : Format) (o : WOpts) : Nat :=
   else if feats.powerOfTwo then 1075 else 324
 
 /-- `lexical_write_float::Options::buffer_size_const::<T, FORMAT>` -/
-def bufferSizeConst (feats : Features) (f : Fmt) (fmt : Format) (o : WOpts) : Nat :=
+def bufferSizeConstOld (feats : Features) (f : Fmt) (fmt : Format) (o : WOpts) : Nat :=
   let fs := if fmt.mantissaRadix = 10 then formattedSizeDecimal feats (tyName f) else formattedSize feats (tyName f)
   max (2 + sizeExp feats fmt o + sizeDigits fmt.mantissaRadix o) fs
 
@@ -368,12 +369,12 @@ def sizeExpFixed (feats : Features) (fmt : Format) (o : WOpts) : Nat :=
   else if feats.powerOfTwo then 1075 else 324
 
 /-- `buffer_size_const` after `fixes/C09-buffer-size-const.diff` -/
-def bufferSizeConstFixed (feats : Features) (f : Fmt) (fmt : Format) (o : WOpts) : Nat :=
+def bufferSizeConst (feats : Features) (f : Fmt) (fmt : Format) (o : WOpts) : Nat :=
   let fs := if fmt.mantissaRadix = 10 then formattedSizeDecimal feats (tyName f) else formattedSize feats (tyName f)
   max (2 + sizeExpFixed feats fmt o + sizeDigitsFixed fmt.mantissaRadix o) fs
 
 /-- `lexical_write_integer::Options::buffer_size_const::<T, FORMAT>` from `Gen.Sizes` -/
-def intBufferSizeConst (feats : Features) (name : String) (radix : Nat) : Nat :=
+def intBufferSizeConstOld (feats : Features) (name : String) (radix : Nat) : Nat :=
   if radix = 10 then formattedSizeDecimal feats name else formattedSize feats name
 
 /-! ## option validation -/
@@ -500,13 +501,13 @@ def writeFloatB (bound : Nat) (feats : Features) (f : Fmt) (fmt : Format) (o : W
       finalCheck out
 
 /-- `write_float` with the current `buffer_size_const` in `check_buffer` -/
+def writeFloatOld (feats : Features) (f : Fmt) (fmt : Format) (o : WOpts) (debug : Bool) (bits : Nat)
+    (digits : List Nat × Int) (buf : List Nat) : Outcome :=
+  writeFloatB (bufferSizeConstOld feats f fmt o) feats f fmt o debug bits digits buf
+
+/-- `write_float` with the repaired `buffer_size_const` in `check_buffer` -/
 def writeFloat (feats : Features) (f : Fmt) (fmt : Format) (o : WOpts) (debug : Bool) (bits : Nat)
     (digits : List Nat × Int) (buf : List Nat) : Outcome :=
   writeFloatB (bufferSizeConst feats f fmt o) feats f fmt o debug bits digits buf
-
-/-- `write_float` with the repaired `buffer_size_const` in `check_buffer` -/
-def writeFloatFixed (feats : Features) (f : Fmt) (fmt : Format) (o : WOpts) (debug : Bool) (bits : Nat)
-    (digits : List Nat × Int) (buf : List Nat) : Outcome :=
-  writeFloatB (bufferSizeConstFixed feats f fmt o) feats f fmt o debug bits digits buf
 
 end LexVerif.Model.WriteFloat
